@@ -1,4 +1,4 @@
-import RV.C04.OpLemmas2
+import RV.C04.OpLemmas3
 /-
   C04 — the induction: on the proved fragment (BGP, lazy and non-lazy Join, Union, Filter and
   Extend with EXISTS-free expressions, Values) rdflib's top-down evaluation under pushed-in
@@ -79,7 +79,20 @@ theorem pushdown_fragment {D : Dataset} (hD : (D.named.map (·.1)).Nodup) : ∀ 
   | .values vars rows, _, _, _, g, μ0 => by
     simp only [Model.evalPart, Spec.eval]
     exact List.Perm.of_eq (pushdown_values μ0 vars rows)
-  | .leftJoin _ _ _ _ _, hf, _, _, _, _ => by simp [Alg.inFragment] at hf
+  | .leftJoin a b e p1vars p2vars, hf, hs, hws, g, μ0 => by
+    simp only [Alg.inFragment, Bool.and_eq_true] at hf
+    have hwsa : ∀ v ∈ a.allVars, v < n := fun v hv => hws v (by simp [Alg.allVars, hv])
+    have hwsb : ∀ v ∈ b.allVars, v < n := fun v hv => hws v (by simp [Alg.allVars, hv])
+    cases p1vars with
+    | none => simp [Alg.safe] at hs
+    | some vs =>
+      simp only [Alg.safe, Bool.and_eq_true, Option.getD_some] at hs
+      obtain ⟨⟨⟨⟨has, hbs⟩, _⟩, hs1⟩, hs2⟩ := hs
+      simp only [Model.evalPart, Spec.eval, Option.getD_some]
+      exact pushdown_leftjoin (XB := fun c => Model.evalPart D g c b)
+        (pushdown_fragment hD a hf.1.2 has hwsa g μ0)
+        (fun c => pushdown_fragment hD b hf.2 hbs hwsb g c) hf.1.1 hs1 hs2
+        (fun μ hμ => spec_bounds a hf.1.2 hwsa g μ hμ) (fun μ hμ => spec_bounds b hf.2 hwsb g μ hμ)
   | .minus a b p1vars, hf, hs, hws, g, μ0 => by
     simp only [Alg.inFragment, Bool.and_eq_true] at hf
     simp only [Alg.safe, Bool.and_eq_true] at hs
